@@ -16,6 +16,8 @@ CLAIMED['C10'] = ('the strength predicate executed from SSA (crypto/rsa Size fro
     'third-party parsers are uninterpreted functions (their byte-level robustness is a fuzzer\'s subject, outside this technique); counterexamples of the kernels are replayed natively')
 CLAIMED['C11'] = ('encode/decode of the address extension, VerifyIPRestrictedX509CertIP and the daemon-side callers executed from SSA together with net.IPNet.Contains / IPv4 / CIDRMask / IPMask.Size / IP.To4 from the net package\'s own SSA: every prefix 0..32 x every address byte (round trip), every block list up to the bound x every BitLength 0..64 x every peer (membership both directions, IPv6 / unparsable / malformed never admitted, no panic), the daemon verifies (leaf, TCP peer address), refresh keeps identity and netblocks, and the gate lemma for the refresh endpoint',
     'asn1 marshal/unmarshal = identity on the family list subject to the BIT STRING length invariant; net.ParseIP / SplitHostPort contracts; block lists bounded (1x1, 1x2 quick; 2x1 thorough); counterexamples replayed natively')
+CLAIMED['C13'] = ('CanRedirectToURL and both CORS origin tests executed from SSA over an over-approximated url.Parse (any URL structure), arbitrary non-empty configured domains (<=2 quick / <=3 thorough) and symbolic pattern outcomes; z3 decides accepted => https, no query, no "..", host equals a configured domain or ends with "."+domain, a pattern matched when patterns are configured',
+    'url.Parse is over-approximated and (*URL).Hostname() is the library function (uninterpreted); strings are unbounded (sequence theory); counterexamples are replayed through the real function')
 NA_REASON = {}
 checks = []
 for pid in ALL:
